@@ -1,0 +1,9 @@
+//go:build verif
+
+package cluster
+
+import "github.com/andydunstall/piko/server"
+
+// This file only exists under the 'verif' build tag.
+
+func (n *Node) VerifServer() *server.Server { return n.server }
